@@ -220,8 +220,8 @@ pub fn evidence_json(st: &Stats, m: &EvidenceMeta) -> J {
             "assumptions",
             J::A(vec![
                 J::s("sampled parts (placed k for long reference runs, swarm runs) are evidence, not proof"),
-                J::s("instantiated for f64 and Complex<f64>, dimensions Const<1..4> and Dyn(1..6) (builder enumerations: Const<1..3>, Dyn(2)), user data () and a counter the derivative mutates, the seven shipped solver types; user-defined coefficient types and f32 are not instantiated"),
-                J::s("non-finite arguments, wrong-length initial-condition slices and new_dyn(0) are outside the statement and not generated"),
+                J::s("instantiated for f64 and Complex<f64>, dimensions Const<1..4> and Dyn(1..6) (builder enumerations: Const<1..3>, Dyn(2)), user data () and a counter the derivative mutates, the seven shipped solver types; in single precision (f32, Complex<f32>) only the builders are exercised (builder_half.single_precision_probe), no iteration; user-defined coefficient types are not instantiated"),
+                J::s("non-finite arguments, wrong-length initial-condition slices and new_dyn(0) on a dynamic dimension are outside the statement and not generated (new_dyn(k) on a static dimension, k = 0 included, is generated: it is dimension misuse)"),
                 J::s("Euler::with_tolerance(non-positive) may return Ok or Err(ToleranceOOB) (documented no-op; DESIGN 3.7); Euler::solve() with the step given only through with_minimum_dt may return Ok or Err(MissingParameters)"),
                 J::s("clause B7 (min <= max) is observed through the two cfg(bacon_verif) accessors; a violation needs both the builder at solve() and the built solver to show minimum > maximum (DESIGN 3.5.2)"),
                 J::s("interpretations: the Err item must hold the very error object the derivative returned first; a bad value is rejected by the setter that receives it; all seven parameters are mandatory; an Err of the solver itself with no fault fired does not arm the 'nothing more' rule; a completed iterator polled again must not panic (DESIGN 3.5, 8.6)"),
